@@ -547,6 +547,11 @@ def _raster(seed, dtype, backend, shape=(6, 7), kind='data'):
         vals = [[1 + (r * 2 // h) * 2 + (c * 2 // w) for c in range(w)] for r in range(h)]
     elif kind == 'terrain':
         vals = [[rng.randint(0, 60) for c in range(w)] for r in range(h)]
+    elif kind in ('zeros', 'ones', 'const'):
+        v = {'zeros': 0, 'ones': 1, 'const': 3}[kind]
+        vals = [[v for c in range(w)] for r in range(h)]
+    elif kind == 'ramp':
+        vals = [[(r * w + c) % 7 + 1 for c in range(w)] for r in range(h)]
     else:
         vals = [[rng.randint(0, 4) for c in range(w)] for r in range(h)]
     a = np.array(vals, dtype=dtype)
@@ -692,6 +697,20 @@ def catalogue():
                'analytics.summarize_terrain'):
         add(fn, dtype='float64')
         add(fn, dtype='int32', backend='dask')
+    # seeded generators are functions of seed, shape and extent ONLY: templates holding zeros / ones / an existing
+    # raster (no NaN, so that the min-max normalisation cannot hide a difference) must give the same bits (`equiv`)
+    for tmpl in ('zeros', 'ones', 'ramp'):
+        add('terrain.generate_terrain', seed_arg=7, template=tmpl, shape=[12, 14], equiv='terrain-seed7-f64')
+        add('perlin.perlin', seed_arg=7, template=tmpl, shape=[12, 14], equiv='perlin-seed7-f64')
+    add('terrain.generate_terrain', seed_arg=7, template='ones', shape=[12, 14], dtype='float32', equiv='terrain-seed7-f32')
+    add('terrain.generate_terrain', seed_arg=7, template='zeros', shape=[12, 14], dtype='float32', equiv='terrain-seed7-f32')
+    add('terrain.generate_terrain', seed_arg=7, template='ramp', shape=[12, 14], backend='dask', equiv='terrain-seed7-dask')
+    add('terrain.generate_terrain', seed_arg=7, template='zeros', shape=[12, 14], backend='dask', equiv='terrain-seed7-dask')
+    # true_color with a CONSTANT band (max == min: the normalisation kernel writes nothing for it)
+    for cb in (0, 1, 2):
+        add('multispectral.true_color', dtype='float64', const_band=cb, shape=[40, 48])
+    add('multispectral.true_color', dtype='int32', const_band=1, shape=[40, 48], backend='dask')
+    add('multispectral.true_color', dtype='float64', shape=[40, 48])
     # kernel constructors (no raster argument), repeated and interleaved with the same and other shapes, and focal
     # results built on freshly constructed kernels
     add('convolution.annulus_kernel', cellsize_x=1, cellsize_y=1, outer_radius=3, inner_radius=1)
@@ -775,6 +794,9 @@ def prepare(d):
     kw.pop('big', None)
     stack3 = kw.pop('stack3', False)
     share = kw.pop('share', None)
+    kw.pop('equiv', None)
+    template = kw.pop('template', None)
+    const_band = kw.pop('const_band', None)
     shape = tuple(d['shape'])
     be, dt, seed = d['backend'], d['dtype'], d['seed']
     for k in list(kw):
@@ -815,9 +837,11 @@ def prepare(d):
     if fn.startswith('multispectral.'):
         n = {'ndvi': 2, 'evi': 3, 'true_color': 3, 'arvi': 3, 'gci': 2, 'nbr': 2, 'nbr2': 2, 'ndmi': 2, 'savi': 2,
              'sipi': 3, 'ebbi': 3}[fname]
-        return f, tuple(_raster(seed + i, dt, be, shape) for i in range(n)), kw
+        return f, tuple(_raster(seed + i, dt, be, shape, 'const' if i == const_band else 'data') for i in range(n)), kw
     if fn == 'viewshed.viewshed':
         return f, (_raster(seed, dt, be, shape, 'terrain'),), kw
+    if template:
+        return f, (_raster(seed, dt, be, shape, template),), kw
     if fn == 'pathfinding.a_star_search':
         return f, (_raster(seed, dt, be, shape), (10.0, 0.0), (0.0, 12.0)), kw
     return f, (_raster(seed, dt, be, shape),), kw
@@ -1069,6 +1093,22 @@ def run_sequences(ctx, seqs, threads_list, baseline_ids=None):
                 ctx.violation('correspondence', 'harness: subprocess %r failed: %s' % (k, str(e)[:300]), dict(job=list(map(str, k))))
                 res[k] = None
     fresh = {i: res[('fresh', i)][0] for i in distinct if res.get(('fresh', i))}
+    groups = {}
+    for i in distinct:
+        g = cat[i]['kw'].get('equiv')
+        if g and i in fresh:
+            groups.setdefault(g, []).append(i)
+    for g, ids_ in sorted(groups.items()):
+        for i in ids_[1:]:
+            ctx.traces += 1
+            if fresh[i][0] != fresh[ids_[0]][0]:
+                a, b = cat[ids_[0]], cat[i]
+                ctx.violation('oracle', '%s(seed=%s) is not a function of seed, shape and extent only: template `%s` gives %s [%s], '
+                                        'template `%s` gives %s [%s] (fresh process each, %s %s)' % (
+                                            a['fn'], a['kw'].get('seed_arg'), a['kw'].get('template'), fresh[ids_[0]][0], fresh[ids_[0]][2],
+                                            b['kw'].get('template'), fresh[i][0], fresh[i][2], b['backend'], b['dtype']),
+                              dict(kind='sequence-position', sequence=[b], position=0, threads=1, scheduler=None, call=b,
+                                   equiv_with=a))
     for si, s in enumerate(seqs):
         for (t, sc) in settings(si):
             r = res.get(('seq', si, (t, sc)))
@@ -1143,14 +1183,23 @@ def run(ctx):
     perl = [d['id'] for d in cat if d['fn'] == 'perlin.perlin'][0]
     xt3 = [d['id'] for d in cat if d['fn'] == 'zonal.crosstab' and d['kw'].get('stack3')]
     def ids(fn, **kw):
-        return [d['id'] for d in cat if d['fn'] == fn and all(d['kw'].get(k) == v for k, v in kw.items())]
+        return [d['id'] for d in cat if d['fn'] == fn and all(d['kw'].get(k, d.get(k)) == v for k, v in kw.items())]
     kern = ids('convolution.annulus_kernel', outer_radius=3, inner_radius=1) + ids('convolution.circle_kernel', cellsize_x=1, radius=3) + \
         ids('focal.apply', kernel='circle:1,1,3') + ids('convolution.annulus_kernel', outer_radius=3, inner_radius=2) + \
         ids('convolution.convolution_2d', kernel='annulus:1,1,3,1')
     sh = rng.choice(['A', 'B'])
     before = ids('convolution.calc_cellsize', share=sh) + ids('slope.slope', share=sh)
     shared = before + ids('focal.hotspots', share=sh) + before + ids('curvature.curvature', share=sh)
-    seqs[0] = seqs[0][:max(0, len(seqs[0]) - 16)] + [perl, bump, perl] + xt3 + kern + shared
+    gen = ids('terrain.generate_terrain', template='zeros', dtype='float64', backend='numpy') + \
+        ids('terrain.generate_terrain', template='ones', dtype='float64', backend='numpy') + \
+        ids('perlin.perlin', template='zeros') + ids('perlin.perlin', template='ramp')
+    tc = ids('multispectral.true_color', const_band=None, shape=[40, 48], backend='numpy')
+    # a constant FIRST or LAST band (and the Dask kernel) after other float32 results of the same size, and repeated:
+    # uninitialised memory shows (a constant middle band happens to pick up the previous band's buffer deterministically)
+    tcblock = tc + ids('focal.apply', kernel='cross3', dtype='float64', backend='numpy', func=None)[:1] + \
+        ids('multispectral.true_color', const_band=0, backend='numpy') + tc + \
+        ids('multispectral.true_color', const_band=2, backend='numpy') + ids('multispectral.true_color', const_band=1, backend='dask')
+    seqs[0] = seqs[0][:max(0, len(seqs[0]) - 21)] + [perl, bump, perl] + xt3 + kern + shared + gen + tcblock
     run_sequences(ctx, seqs, threads)
     ctx.exhaustive = False
     # ./check only widens the search when NO oracle violation was seen; the known bump finding is always seen, so
